@@ -1,5 +1,6 @@
 import StrumProofs.C06
 import StrumProofs.DiscHeader
+import StrumProofs.Agree
 /-
 C09 — EnumDiscriminants mirrors the enum: same variants, order, repr, discriminants.
 Model: `genDiscriminants`, `discFromArms`, `discOf` (StrumModel/Repr.lean) mirroring enum_discriminants.rs.
